@@ -698,9 +698,12 @@ pub fn run_c07(ctx: &Ctx, rep: &mut Report) {
             let bb = crowded_builder(rng);
             rep.count("ev_crowded_submitted");
             judge_builder(&bb, "crowded", false, rep);
-            let bb = lattice_builder(rng);
-            rep.count("ev_lattice_submitted");
-            judge_builder(&bb, "lattice", false, rep);
+            // (one such board per run suffices in the interpreter: a 50-man move list costs it minutes)
+            if !miri || ctx.shard == 0 {
+                let bb = lattice_builder(rng);
+                rep.count("ev_lattice_submitted");
+                judge_builder(&bb, "lattice", false, rep);
+            }
         }
     });
     // text stream
